@@ -183,6 +183,19 @@ static const struct { const char *name, *decl, *body; } CHURN[] = {
     { "array_slice", "", "let a: array<string> = [(int_to_string i), \"y\", \"z\"]\n        let b: array<string> = (array_slice a 0 2)\n        set acc (+ acc (array_length b))" },
     { "string_return", "fn mks(n: int) -> string { return (+ \"v\" (int_to_string n)) }\n", "let s: string = (mks i)\n        set acc (+ acc (str_length s))" },
     { "array_pop", "", "let mut a: array<string> = [(int_to_string i), \"y\"]\n        let s: string = (array_pop a)\n        set acc (+ acc (str_length s))" },
+    { "early_return_inside_operand", "union Rec {\n  Good { text: string },\n  Bad { code: int }\n}\nfn label(r: Rec, n: int) -> string {\n    let s: string = (+ (+ \"item-\" (int_to_string n)) (match r {\n        Good(g) => g.text\n        Bad(b) => { return \"rejected\" }\n    }))\n    return s\n}\n",
+      "if (== (% i 2) 0) {\n            set acc (+ acc (str_length (label Rec.Good { text: (int_to_string i) } i)))\n        } else {\n            set acc (+ acc (str_length (label Rec.Bad { code: i } i)))\n        }" },
+    { "early_return_from_loop_in_callee", "fn findfirst(a: array<string>, want: int) -> string {\n    let mut k: int = 0\n    while (< k (array_length a)) {\n        let t: string = (+ (at a k) \"!\")\n        if (== (str_length t) want) { return (+ t (int_to_string k)) }\n        set k (+ k 1)\n    }\n    return \"none\"\n}\n",
+      "let a: array<string> = [(int_to_string i), \"yy\", \"zzz\"]\n        set acc (+ acc (str_length (+ (int_to_string i) (findfirst a 3))))" },
+    { "closure_array_slice", "fn mkc(tag: string, w: array<string>) -> fn(int) -> int {\n    fn cnt(x: int) -> int { return (+ (+ (str_length tag) (array_length w)) x) }\n    return cnt\n}\n",
+      "let mut fs: array<fn(int) -> int> = []\n        set fs (array_push fs (mkc (int_to_string i) [\"a\", \"b\"]))\n        set fs (array_push fs (mkc \"k\" [\"c\"]))\n        let part: array<fn(int) -> int> = (array_slice fs 0 1)\n        let g: fn(int) -> int = (at part 0)\n        let h: fn(int) -> int = (at fs 0)\n        set acc (+ acc (+ (g 1) (h 2)))" },
+    { "closure_in_struct_field", "struct H { f: fn(int) -> int, s: string }\nfn mkh(tag: string) -> fn(int) -> int {\n    fn hh(x: int) -> int { return (+ (str_length tag) x) }\n    return hh\n}\n",
+      "let h: H = H { f: (mkh (int_to_string i)), s: (int_to_string i) }\n        let g: fn(int) -> int = h.f\n        set acc (+ acc (+ (g 1) (str_length h.s)))" },
+    { "nested_array_slice", "", "let a: array<array<string>> = [[(int_to_string i)], [\"y\"], [\"z\", \"w\"]]\n        let b: array<array<string>> = (array_slice a 1 3)\n        let c: array<string> = (at b 1)\n        set acc (+ acc (+ (array_length b) (array_length c)))" },
+    { "struct_field_overwrite", "struct M { s: string, a: array<string> }\n", "let mut m: M = M { s: (int_to_string i), a: [(int_to_string i)] }\n        set m (M { s: (+ m.s \"x\"), a: (array_push m.a m.s) })\n        set acc (+ acc (+ (str_length m.s) (array_length m.a)))" },
+    { "union_holding_array", "union V {\n  Many { xs: array<string> },\n  One { x: string }\n}\n", "let v: V = V.Many { xs: [(int_to_string i), \"q\"] }\n        match v {\n            Many(mm) => { set acc (+ acc (array_length mm.xs)) }\n            One(o) => { set acc (+ acc (str_length o.x)) }\n        }" },
+    { "break_with_temporaries", "", "let mut k: int = 0\n        while (< k 5) {\n            let t: string = (+ (int_to_string i) (int_to_string k))\n            if (== k 2) { break }\n            set acc (+ acc (str_length t))\n            set k (+ k 1)\n        }" },
+    { "string_256_boundary", "fn rep(n: int) -> string {\n    let mut s: string = \"\"\n    let mut k: int = 0\n    while (< k n) {\n        set s (+ s \"r\")\n        set k (+ k 1)\n    }\n    return s\n}\n", "let s: string = (rep (+ 250 (% i 12)))\n        set acc (+ acc (str_length s))" },
     { "map_string_values", "", "let h: HashMap<string, string> = (map_new)\n        (map_put h \"k\" (int_to_string i))\n        (map_put h \"k\" (+ \"w\" (int_to_string i)))\n        set acc (+ acc (str_length (map_get h \"k\")))" },
 };
 #define NCHURN ((int)(sizeof CHURN / sizeof CHURN[0]))
